@@ -24,5 +24,18 @@ def extra(ctx):
             "what": "C12_limiter_keys_code fails: the limiter is no longer asked about and updated under the address of the TCP peer "
                     "(netutil.SplitHost(r.RemoteAddr)): " + why + " (see C12_key_mismatch_refuted for what a header-derived key allows)",
             "detail": lg, "finding_key": "limiter-keys:" + ",".join(bad), "failing_input_found": False})
+    sk = (json.load(open(gen)).get("sessions")) or {}
+    flags = ["check_as_sent", "remove_as_sent", "remove_decodes", "cookie_value"]
+    ctx.extra_coverage["session_keys"] = {k: sk.get(k) for k in flags}
+    ctx.extra_obligations += len(flags)
+    badk = [k for k in flags if not (sk.get("found") and sk.get(k))]
+    ctx.extra_discharged += len(flags) - len(badk)
+    if badk:
+        why = "; ".join(sk.get("notes") or []) or "the idiom of checkSession / removeSession was not recognised"
+        ctx.failures.insert(0, {
+            "kind": "proof",
+            "what": "C12_session_keys_code fails: the session table is no longer keyed the way Model/Session.v says (map by the cookie string "
+                    "as sent on both the check and the removal side, bucket by its hex decoding): " + why + " (see C12_key_slips_refuted)",
+            "detail": sk, "finding_key": "session-keys:" + ",".join(badk), "failing_input_found": False})
     ctx.trusted.append("tools/routes (go/types): reads the arguments of rateLimiter.check / newCookie / inc / remove off handleLogin and "
                        "newCookie; an unrecognised idiom yields None, which C12_limiter_keys_code rejects")
